@@ -49,10 +49,43 @@ def run(F, R, tier):
     q = F.crate("quill")
     roles = r09_2(q, R, spec)
     r09_1(q, R, spec, roles)
+    r09_eq(q, R)
     return ("A5 decision tables of the merge combiners, of Combination::map, of the zip helpers and of the Names/Namespaces "
             "containers, evaluated cell by cell on the typed HIR and compared with spec/merge.json; A4 level alignment of the "
             "17 output fields of Mappings::merge (combiner by declared field type, projection path and level by closure parameter, "
             "error propagated by `?`)")
+
+
+def r09_eq(q, R):
+    """`equal comments once, different comments -> Err`, `equal names once`: the combiners decide with `==` of the model types. That `==` is
+    structural: every PartialEq impl of a type of quill::tree is derived, or compares plain fields of self and other with eq / == only."""
+    rid = "R09.1"
+    n = 0
+    for i in q.raw["impls"]:
+        if i.get("trait") != "core::cmp::PartialEq" or not (i.get("self_ty") or "").startswith("quill::tree::"):
+            continue
+        n += 1
+        short = i["self_ty"].split("<")[0].rsplit("::", 1)[-1]
+        if "PartialEq" in (i.get("mac") or []):
+            R.inst(rid, "equality-is-structural:%s" % short, True, sp=i.get("sp"), got="derived", nontrivial=False)
+            continue
+        eb = next((b for b in q.bodies if b["key"] == i["key"] + "::eq"), None)
+        bad = []
+        if eb is None:
+            bad.append("hand-written impl whose `eq` was not found")
+        else:
+            for x in H.walk(eb["body"]):
+                if x.get("k") in ("mcall", "call") and (H.callee_name(x) or "") not in ("eq", "ne"):
+                    bad.append("`%s`" % H.render(x)[:80])
+                if x.get("k") == "bin" and x.get("op") not in ("==", "&&", "!="):
+                    bad.append("operator %s" % x.get("op"))
+                if x.get("k") in ("if", "match", "loop", "for", "closure"):
+                    bad.append("`%s` in eq" % x["k"])
+        R.inst(rid, "equality-is-structural:%s" % short, not bad, sp=(eb or i).get("sp"), got=bad or "field-wise eq",
+               expect="#[derive(PartialEq)] or `self.f.eq(&other.f)` / `self.f == other.f` on plain fields",
+               detail="an equality that normalises its operands (trim, case folding) makes the combiners treat different values as the same: "
+                      "the merge keeps one side silently instead of reporting the conflict (seed C09-13)")
+    R.anchor(rid, "PartialEq impls of the quill::tree model types", n >= 10)
 
 
 # ===================================================================================== helpers
